@@ -24,6 +24,7 @@ var repoDir = func() string {
 	}
 	return "/repo"
 }()
+
 const modPath = "git.torproject.org/pluggable-transports/snowflake.git/v2"
 
 // JobSpec describes one harness run (one entry of /verif/checks/<id>.json).
@@ -52,9 +53,11 @@ type JobSpec struct {
 	MaxViol     int                       `json:"max_viol"`
 	Preempt     map[string]int            `json:"preempt"` // tier -> preemption bound (0 = unbounded)
 	TestTimeout int                       `json:"test_timeout_s"`
-	BudgetS     map[string]int            `json:"budget_s"`    // tier -> wall-clock budget; exceeding it is inconclusive
-	OnlyLabels  []string                  `json:"only_labels"` // assert labels (prefixes) that belong to this property; others are another check's
-	Kinds       []string                  `json:"kinds"`       // violation kinds that belong to this property (default: all)
+	BudgetS     map[string]int            `json:"budget_s"`     // tier -> wall-clock budget; exceeding it is inconclusive
+	HB          bool                      `json:"hb"`           // run the happens-before race monitor
+	RefineRaces bool                      `json:"refine_races"` // re-explore with racing accesses as scheduling points
+	OnlyLabels  []string                  `json:"only_labels"`  // assert labels (prefixes) that belong to this property; others are another check's
+	Kinds       []string                  `json:"kinds"`        // violation kinds that belong to this property (default: all)
 }
 
 type Violation struct {
@@ -66,6 +69,7 @@ type Violation struct {
 	Sched     []string          `json:"schedule,omitempty"`
 	Prefix    []int             `json:"prefix"`
 	SchedPath []int             `json:"sched_choices,omitempty"`
+	Visible   []string          `json:"extra_scheduling_points,omitempty"`
 }
 
 func (v *Violation) Signature(job string) string {
@@ -99,6 +103,8 @@ type JobResult struct {
 	Assumes     []string
 	Overlay     map[string][]byte
 	HarnessPkg  string
+	RaceSites   []string
+	Refined     bool
 }
 
 type loaded struct {
@@ -220,12 +226,65 @@ func staticCovers(roots []*ssa.Function) []string {
 type workItem struct{ prefix []int }
 
 // runJob explores every path of the harness with a pool of workers.
-func runJob(spec *JobSpec, tier string, extraOverlay map[string][]byte, concrete map[string]uint64, onlyPrefix []int) (*JobResult, error) {
-	t0 := time.Now()
+// runJob explores the harness; when the happens-before monitor reports races and the job asks
+// for it, a second pass re-explores with the racing instructions as scheduling points (the
+// sleep-set reduction of the first pass is only sound for data-race-free code).
+func runJob(spec *JobSpec, tier string, extraOverlay map[string][]byte, concrete map[string]uint64, onlyPrefix []int, visibleStr ...string) (*JobResult, error) {
 	ld, err := loadJob(spec, extraOverlay)
 	if err != nil {
 		return nil, err
 	}
+	var vis map[string]bool
+	if len(visibleStr) > 0 {
+		vis = map[string]bool{}
+		for _, s := range visibleStr {
+			vis[s] = true
+		}
+	}
+	res, err := runJobPass(ld, spec, tier, concrete, onlyPrefix, vis)
+	if err != nil || concrete != nil || onlyPrefix != nil || !spec.RefineRaces || len(res.RaceSites) == 0 {
+		return res, err
+	}
+	vis = map[string]bool{}
+	for _, s := range res.RaceSites {
+		vis[s] = true
+	}
+	fmt.Fprintf(os.Stderr, "    .. %s: %d racing access sites found; re-exploring with them as scheduling points\n", spec.Name, len(vis))
+	r2, err := runJobPass(ld, spec, tier, nil, nil, vis)
+	if err != nil {
+		return res, nil
+	}
+	res.Refined = true
+	res.Paths += r2.Paths
+	res.Steps += r2.Steps
+	res.Queries += r2.Queries
+	res.SolverTime += r2.SolverTime
+	res.Wall += r2.Wall
+	res.SchedSteps += r2.SchedSteps
+	res.AssertPaths += r2.AssertPaths
+	for k, v := range r2.Ends {
+		res.Ends["refined:"+k] += v
+	}
+	for c := range r2.Covers {
+		res.Covers[c] = true
+	}
+	seen := map[string]bool{}
+	for _, v := range res.Violations {
+		seen[v.Signature(spec.Name)] = true
+	}
+	for _, v := range r2.Violations {
+		if !seen[v.Signature(spec.Name)] {
+			res.Violations = append(res.Violations, v)
+		}
+	}
+	for _, r := range r2.Inconcl {
+		res.Inconcl = append(res.Inconcl, "refinement pass: "+r)
+	}
+	return res, nil
+}
+
+func runJobPass(ld *loaded, spec *JobSpec, tier string, concrete map[string]uint64, onlyPrefix []int, visible map[string]bool) (*JobResult, error) {
+	t0 := time.Now()
 	fn := ld.pkg.Func(spec.Fn)
 	if fn == nil {
 		return nil, fmt.Errorf("harness function %s not found in %s", spec.Fn, spec.Pkg)
@@ -368,6 +427,7 @@ func runJob(spec *JobSpec, tier string, extraOverlay map[string][]byte, concrete
 
 				m := newMachine(ld, spec, sol, prefix, params, concrete)
 				m.fallbackMs = fbms
+				m.visibleStr = visible
 				why := m.runPath(fn)
 				if sol != nil && sol.dead {
 					sol = NewSolver(qms)
@@ -404,7 +464,25 @@ func runJob(spec *JobSpec, tier string, extraOverlay map[string][]byte, concrete
 				for k, v := range m.redirUsed {
 					res.RedirUsed[k] += v
 				}
+				for _, p := range m.raceSites {
+					s := m.prog.Fset.Position(p).String()
+					dup := false
+					for _, o := range res.RaceSites {
+						if o == s {
+							dup = true
+						}
+					}
+					if !dup {
+						res.RaceSites = append(res.RaceSites, s)
+					}
+				}
 				for _, v := range m.viol {
+					if visible != nil {
+						for s := range visible {
+							v.Visible = append(v.Visible, s)
+						}
+						sort.Strings(v.Visible)
+					}
 					if !spec.owns(&v) {
 						continue
 					}
